@@ -27,8 +27,16 @@ Fixpoint has_count (s : xstmt) : bool :=
   end.
 Definition no_count (body : list xstmt) : bool := negb (existsb has_count body).
 
-(* the fragment: test identifiers, an engine that neither reacts from inside notifications nor
-   completes services immediately nor mutates parameter lists; ANY script of API calls (start,
+(* may the engine complete a service from inside its started notification? *)
+Definition uses_imm (c : runcase) : bool := negb (forallb negb (rc_imm c)).
+
+(* the fragment: test identifiers, an engine that neither reacts (sends completions of OTHER
+   services) from inside notifications nor mutates parameter lists; it may complete a started
+   service at once, from inside the service-started notification ([rc_imm], arbitrary) -- then
+   the script registers no further function for service-started notifications and attaches no
+   observer (Sim.ok_call: the net serves the rest of a service-started notification only after
+   everything that the immediate completion triggers, the reference semantics before);
+   otherwise ANY script of API calls (start,
    completion, junk events, registration of further functions, attaching / detaching observers);
    programs whose unfolding consists of services, task calls (non-empty bodies), Parallel
    statements, Conditions (non-empty Passed block, with or without a Failed block) and While
@@ -43,7 +51,7 @@ Definition in_fragment (c : runcase) : bool :=
   rc_test_ids c
   && forallb (fun o => match o with None => true | Some _ => false end) (rc_react c)
   && Nat.eqb (rc_mutate c) 0
-  && forallb negb (rc_imm c)
+  && forallb (ok_call (uses_imm c)) (rc_script c)
   && match unfold_program (p_tasks (rc_prog c)) 200 with
      | Ok body => frag_block body && Nat.ltb (need_l body) 200 && sok_block (no_count body) true body
      | _ => false
@@ -79,20 +87,20 @@ Theorem net_refines_ref_fragment :
 Proof.
   intros c Hin tr Href. unfold in_fragment in Hin.
   repeat (apply andb_prop in Hin; destruct Hin as [Hin ?]).
-  rename H into Hprog, H0 into Himm, H1 into Hmut, H2 into Hreact.
-  assert (Hscript : forallb ok_call (rc_script c) = true) by (apply forallb_forall; intros [] _; reflexivity).
+  rename H into Hprog, H0 into Hscript, H1 into Hmut, H2 into Hreact.
   destruct (unfold_program (p_tasks (rc_prog c)) 200) as [body| | |] eqn:Hu; try discriminate Hprog.
   apply andb_prop in Hprog. destruct Hprog as [Hprog Hsok]. apply andb_prop in Hprog. destruct Hprog as [Hfrag Hneed]. apply Nat.ltb_lt in Hneed.
   unfold run_ref in Href. rewrite (no_react_existsb _ Hreact), Hu in Href. cbn [rbind] in Href.
   destruct (net_init_spec (p_tasks (rc_prog c)) 200 body Hu Hfrag Hneed) as (N & Hinit & HN).
   assert (Henv : env_quiet (env_of c)).
-  { split; [|split].
-    - intro k. unfold env_of, ec_imm, imm_of. apply nth_all_false. exact Himm.
+  { split.
     - intro k. unfold env_of, ec_react. apply nth_all_none. exact Hreact.
     - unfold env_of, ec_mutate. apply Nat.eqb_eq. exact Hmut. }
-  assert (Himm' : forall k, imm_of (rc_imm c) k = false) by (intro k; apply nth_all_false; exact Himm).
-  destruct (script_sim (no_count body) (p_tasks (rc_prog c)) (env_of c) Henv (orc_of (rc_vals c)) (imm_of (rc_imm c)) Himm' eq_refl
+  assert (Himm' : uses_imm c = false -> forall k, imm_of (rc_imm c) k = false).
+  { intros Hui k. apply nth_all_false. unfold uses_imm in Hui. apply negb_false_iff in Hui. exact Hui. }
+  destruct (script_sim (no_count body) (p_tasks (rc_prog c)) (env_of c) Henv (orc_of (rc_vals c)) (imm_of (rc_imm c))
+                       (fun k => eq_refl) (uses_imm c) Himm' eq_refl
                        body N HN Hfrag Hsok default_fuel (rc_script c) sched0 N tr Hscript
-                       (Rel_init (no_count body) body N HN) Href) as [f0 Hf0].
+                       (Rel_init (no_count body) (uses_imm c) body N HN) Href) as [f0 Hf0].
   exists f0. intros f Hf. unfold run_net_f. rewrite Hin, Hinit. cbn [rbind]. apply Hf0. exact Hf.
 Qed.
